@@ -282,7 +282,7 @@ func crashOpts(dir string, j *vlib.Job) Options {
 	o.NumLevelZeroTables = 1 // one L0 table already makes L0 eligible: compactions happen in short histories
 	o.NumLevelZeroTablesStall = 9
 	o.NumMemtables = 4
-	o.ValueThreshold = 64
+	o.ValueThreshold = int64(j.Int("value_threshold", 64))
 	o.BaseTableSize = 512
 	o.BaseLevelSize = 2 << 10
 	o.LevelSizeMultiplier = 2
